@@ -178,6 +178,7 @@ pub fn run_check(a: &CheckArgs) -> i32 {
     let mut families = BTreeMap::new();
     let mut flavours = BTreeMap::new();
     let mut knobs = BTreeMap::new();
+    let mut incomplete: Vec<J> = Vec::new();
     let mut caps = BTreeMap::new();
     let mut waits = BTreeMap::new();
     let mut strategies = BTreeMap::new();
@@ -196,6 +197,13 @@ pub fn run_check(a: &CheckArgs) -> i32 {
         steps += r.u("steps");
         max_steps = max_steps.max(r.u("max_steps"));
         merge_map(&mut ends, r.get("ends"));
+        if let Some(a) = r.get("incomplete").and_then(|x| x.as_arr()) {
+            for x in a {
+                if incomplete.len() < 100 {
+                    incomplete.push(x.clone());
+                }
+            }
+        }
         merge_map(&mut families, r.get("families"));
         merge_map(&mut flavours, r.get("flavours"));
         merge_map(&mut knobs, r.get("knobs"));
@@ -419,6 +427,7 @@ pub fn run_check(a: &CheckArgs) -> i32 {
         .set("faults_fired", fault_obj)
         .set("probes_hit", probe_obj)
         .set("ends", J::from_map(&ends))
+        .set("runs_not_completed", J::Arr(incomplete.clone()))
         .set("families", J::from_map(&families))
         .set("flavours", J::from_map(&flavours))
         .set("runs_with_knob", J::from_map(&knobs))
